@@ -1142,6 +1142,9 @@ func (r *Run) ForeignLogOracle() []string {
 				msg = fmt.Sprintf("a%s %s log (kind %s: %d topics, %d bytes of data), not a log of the declared event", map[bool]string{true: "n"}[name == "Approval" || name == "OwnershipTransferred"], name, found.Kind, len(found.Topics), len(found.Data))
 			case want == "transfer" && !t.Spec.accepts(found):
 				msg = "a log that the declared filters (address / recipient, under the declared aggregation) reject"
+				if t.Spec.AddrFlt {
+					msg += fmt.Sprintf(": emitted by contract %x, the log_addr filter admits %x", found.Addr[16:], t.Spec.fltAddr()[16:])
+				}
 			case want != "transfer" && t.Spec.AddrFlt && string(found.Addr) != string(TokenAddr):
 				msg = "a log of another contract than the declared address filter admits"
 			}
